@@ -5,7 +5,7 @@ import json, os, subprocess, tempfile, time
 from . import common as C
 
 EVENT_NAMES = {1: 'storage got >1 packet', 2: 'sink ring wrapped', 3: 'filter ring wrapped', 4: 'trailing incomplete window',
-               10: 'client consumed part of a multi-frame region', 11: 'client saw frames', 12: 'client held a region across stop/abort',
+               10: 'client consumed part of a multi-frame region', 11: 'client saw frames', 12: 'client held a region across stop/abort', 13: 'held region re-read and compared before unmap',
                40: 'camera fault injected', 41: 'storage fault injected', 42: 'multi-frame packet at storage', 43: 'device closed while started', 45: 'camera changed its shape during the run', 46: 'second open of a device in use refused', 47: 'device open refused',
                20: 'writer slept on a full ring', 21: 'abort arrived while the source was blocked', 22: 'frame delivered after trigger', 24: 're-configured while the streamer was parked'}
 
@@ -201,6 +201,8 @@ def c06_cfgs(tier):
     # a client that falls behind across a ring wrap and releases one frame per poll (3-frame ring, 5 frames)
     lag = dict(exposure=4, n=5, ringf=3, ringx=8)
     q += [cfg('c06', 'D1', ends=e, prog=p, **base) for e in ('as', 'aa', 'asa') for p in ('mL', 'L', 'wmL')] + [cfg('c06', 'D2', ends='as', prog='mL', **base)]
+    # ... and hands the stale region back only some frames into the next acquisition: the new acquisition's writer works next to memory the client still holds
+    q += [cfg('c06', 'D1', ends=e, prog=p, late_ms=l, **base) for e in ('as', 'aa') for p in ('mL', 'L', 'wmL') for l in (6, 11)] + [cfg('c06', 'D2', ends='as', prog='mL', late_ms=6, **base)]
     q += [cfg('c06', 'D1', ends='ss', prog=p, **lag) for p in ('wp', 'wwp', 'wpp', 'pwp', 'wwpp')] + [cfg('c06', 'D2', ends='s', prog='wwp', **lag), cfg('c06', 'D2', ends='sa', prog='wpp', **lag)]
     # the camera's frames grow during the acquisition (forced wrap of the ring under a caught-up monitor)
     q += [cfg('c06', 'D1', ends=e, prog=p, reshape_at=k, reshape_w=64, reshape_h=1, **{**base, 'n': 4}) for e in ('s', 'a') for p in ('m', 'mm', 'wm', 'p') for k in (1, 2)]
@@ -232,6 +234,8 @@ def c07_cfgs(tier):
                   dict(n=1000000, variant=0, avg=2, trigger=1, **base),   # averaging active and the camera waiting for a software trigger (the source feeds the filter ring, not the sink ring)
                   dict(n=1000000, variant=1, prog='mH', **base),      # client holds a mapped region across its own abort
                   dict(n=1000000, variant=1, prog='mL', **base),      # ... and hands it back only after the follow-up acquisition has started
+                  dict(n=1000000, variant=1, prog='mL', late_ms=6, **base),   # ... a frame into it: the follow-up's writer runs next to the memory the client still holds
+                  dict(n=1000000, variant=1, prog='wL', late_ms=11, **base),
                   dict(n=1000000, variant=1, prog='mw', exposure=4, ringf=3, ringx=8),   # the monitor lags: the writer has wrapped into the next lap behind it when the abort comes
                   dict(n=1000000, variant=1, prog='pw', exposure=4, ringf=3, ringx=8),
                   dict(n=1000000, variant=1, prog='c', **base),       # live re-configuration (same devices) before the abort
